@@ -197,19 +197,36 @@ def r3(ctx):
 
 
 def r4(ctx):
-    ctx.rule('C15.R4', 'm_currentAnswering is set from getAnswer() only when the received CRC is valid, and the state then '
-             'entered is bs_sendCmdAck exactly when answering', minimum=1)
-    fn = ctx.fb.fn('ebusd::DirectProtocolHandler::handleReceive')
-    ctx.touch(fn)
+    ctx.rule('C15.R4', 'the answering flag is set from getAnswer() only in state recvCmdCrc for a non-broadcast command, for '
+             'both CRC outcomes: with a valid CRC (ACK and answer) and, on the first attempt only, with a wrong CRC (NAK and '
+             'wait for the repetition); nowhere else', minimum=2)
+    import rules.automaton as A
+    fb = ctx.fb
+    fn, sw, regs, edges, rmap = A.extracted_edges(fb)
+    states, _ = A.bus_states(fb)
+    inv = {v: k for k, v in states.items()}
     n = 0
+    seen = set()
     for nid, d, rhs, op, lhs in fn.assignments():
         if d == 'this.m_currentAnswering' and rhs is not None and 'getAnswer()' in fn.key(rhs):
             n += 1
-            atoms = set((a[0], a[1]) for a in fn.atoms(nid))
-            ok = ('this.m_crcValid', True) in atoms
-            ctx.ob('C15.R4', fn, nid, ok, 'm_currentAnswering = getAnswer()', 'guards: %s' % sorted(a for a in atoms if 'crc' in a[0].lower()))
-    if n == 0:
-        raise AnalysisBroken('C15.R4: m_currentAnswering = getAnswer() not found')
+            blk = fn.block_of(nid)
+            src = [states[v] for v, reg in regs.items() if blk in reg]
+            g = set((A.canon(a[0], rmap), a[1]) for a in fn.atoms(nid, frm=sw['labels'][inv['bs_recvCmdCrc']])) if src == ['bs_recvCmdCrc'] else set()
+            nb = ('(this.m_command[#1] == BROADCAST)', False) in g
+            valid = ('this.m_crcValid', True) in g
+            invalid_first = ('this.m_crcValid', False) in g and ('this.m_repeat', False) in g
+            seen.add('valid' if valid else 'invalid' if invalid_first else 'other')
+            ok = src == ['bs_recvCmdCrc'] and nb and (valid or invalid_first)
+            ctx.ob('C15.R4', fn, nid, ok, 'm_currentAnswering = getAnswer() (%s CRC)' % ('valid' if valid else 'wrong'),
+                   'state %s, not broadcast: %s, guards %s' % (src, nb, sorted(a for a in g if 'crc' in a[0].lower() or 'repeat' in a[0])))
+    ctx.ob('C15.R4', fn, fn.body, {'valid', 'invalid'} <= seen, 'answer decision for both CRC outcomes',
+           'getAnswer() consulted for: %s' % sorted(seen))
+    for f in fb.functions:
+        if f.name == A.HR:
+            continue
+        for c in f.calls('ebusd::DirectProtocolHandler::getAnswer', suffix=False):
+            ctx.ob('C15.R4', f, c, False, 'getAnswer() call in %s' % f.name, 'answer lookup outside the receive state machine')
 
 
 def r5(ctx):
@@ -250,9 +267,31 @@ def r5(ctx):
                'lookups inside the loop: %d with the full key, %d with the source wildcard mask' % (plain, masked))
 
 
+ANSWER_STATES = ['bs_sendCmdAck', 'bs_sendRes', 'bs_sendResCrc']
+
+
+def r6(ctx):
+    import rules.automaton as A
+    ctx.rule('C15.R6', 'every transition out of the slave-role states (sendCmdAck, sendRes, sendResCrc) matches the reference '
+             'automaton: ACK/NAK according to the received CRC, response only to a slave destination, report for a master '
+             'destination, NAK at most once', minimum=8, star=True)
+    n = A.compare(ctx, 'C15.R6', ANSWER_STATES)
+    if n < 8:
+        raise AnalysisBroken('C15.R6: only %d answer-state transitions extracted' % n)
+
+
+def r7(ctx):
+    import rules.C01 as C01
+    import rules.C02 as C02
+    C01.repeat_rule(ctx, 'C15.R7', ANSWER_STATES + ['bs_recvResAck'], 3)
+    C02.part_restart_rule(ctx, 'C15.R8', ['bs_sendCmdAck', 'bs_recvResAck'], 3)
+
+
 def run(ctx):
     r1(ctx)
     r2(ctx)
     r3(ctx)
     r4(ctx)
     r5(ctx)
+    r6(ctx)
+    r7(ctx)
